@@ -40,7 +40,9 @@ DEPTHS = (1.0, 0.5, 3.0)
 NOISE_SD = 0.05
 ANTI_MODES = ("none", "present", "empty-header", "empty-blank")
 ORDERS = ("given", "rev-targets")
-NAMINGS = ("chr", "bare")
+NAMINGS = ("chr", "bare", "chr+spike")  # the third: chr-style names plus one unprefixed spike-in sequence (sorts last)
+SPIKE = "phiX174"
+SPIKE_ENTRY = (SPIKE, 6, 3, 0.2, -0.1)
 SEX_MODES = ("inferred", "given-female", "given-male")
 REJECT_KINDS = ("start+1", "end+1", "chrom-renamed", "row-dropped", "row-added")
 CORRECTIONS = ("gc", "edge", "rmask")
@@ -293,7 +295,9 @@ def noise_for(n, i):
 
 
 def chrom_name(name, naming):
-    return ("chr" if naming == "chr" else "") + name
+    if name == SPIKE:
+        return name  # a spike-in / decoy sequence keeps its own, unprefixed name
+    return ("chr" if naming.startswith("chr") else "") + name
 
 
 def zero_median(vals):
@@ -304,7 +308,7 @@ def zero_median(vals):
 def genome_a(naming):
     """-> (target bins, antitarget bins, target profile, antitarget profile); bins = (chrom, start, end, gene)."""
     tb, ab, tp, ap = [], [], [], []
-    for name, nt, na, off_t, off_a in GENOME_A:
+    for name, nt, na, off_t, off_a in GENOME_A + ((SPIKE_ENTRY,) if naming == "chr+spike" else ()):
         c = chrom_name(name, naming)
         prof = zero_median([0.01 * ((37 * i) % 41 - 20) for i in range(nt)])
         for i in range(nt):
